@@ -56,6 +56,7 @@ def generate(seed, tier="quick", prop=PROPERTY, logprobs=0.0, all_logprobs=0.1):
         ops.append(op)
     prog = {"format": 1, "property": prop, "seed": seed, "config": cfg, "ops": ops, "schedule": None, "faults": []}
     sampling.add_concurrent(rnd, prog)
+    sampling.add_failed_op(rnd, prog)
     return prog
 
 
@@ -73,6 +74,12 @@ def judge_rejection(dep, rec, L, prop, probes):
         probes[k] = probes.get(k, 0) + n
 
     n_prior = kw.get("n_prior_samples") or N
+    if sampling.failed_as_injected(rec):
+        # a worker / the pool was made to fail inside this call and the failure reached the caller: nothing more is
+        # promised for THIS call; the calls after it are judged as always
+        probe("failed_op_in_history(injected pool fault, raised)")
+        info["legit_raise"] = True
+        return v, info
     # --- which rows were evaluated
     E = A.seam_rows
     if E is None:
